@@ -21,7 +21,7 @@ ASSUMPTIONS = ['reference interpreter vf/model.py is trusted',
                'dtml-call of an undefined name is not generated (the '
                'statement does not say what it does)']
 
-KINDS = ['T', 'F', 'RT', 'RF', 'U', 'ET', 'EF']
+KINDS = ['T', 'F', 'RT', 'RF', 'U', 'ET', 'EF', 'HX']
 CFG = gen.Config(kinds=['text', 'var', 'call', 'if', 'if', 'unless', 'in',
                         'with', 'let'], max_depth=3, max_items=3,
                  literals=False, eol=False)
@@ -52,7 +52,7 @@ def body_for(i, kind, shape, kinds=()):
     false, conditions), calls a recorder."""
     b = [T('B%d[' % i)] + earlier_refs(kinds, i)
     name = 'c%d' % i
-    if kind in ('T', 'RT'):
+    if kind in ('T', 'RT', 'HX'):
         b.append(V(name))
         inner = [T('n('), V(name), T(')')]
         b.append(dict(k='if', conds=[dict(r='name', n=name)],
@@ -81,6 +81,12 @@ def chain_case(kinds, has_else, shape=0, form='if'):
             ns['c%d' % i] = 'yes%d' % i
         elif kd == 'F':
             ns['c%d' % i] = ''
+        elif kd == 'HX':
+            # an HTTP exception object (e.g. what error_value holds): a true
+            # value that is callable but must not be called
+            ns['c%d' % i] = dict(t='httpexc', n=['NotFound', 'Unauthorized',
+                                                 'BadRequest'][i % 3],
+                                 msg='hx%d' % i)
         elif kd == 'RT':
             ns['c%d' % i] = dict(t='rec', id='c%d' % i, ret='Y%d' % i)
         elif kd == 'RF':
